@@ -36,6 +36,11 @@ def _template(ctx, kind, side, exch='futures', data=()):
         ctx.constrain(And(sl < pe - 30, tp > pe + 30, pe > 85, pe < 115) if long else And(sl > pe + 30, tp < pe - 30, pe > 85, pe < 115))
         return S.make_template(side=side, entry=pe, stop=sl, take=tp, qty=1.0, name='T1', on_open_exits=(exch == 'spot'),
                                exit_qty_from_position=(exch == 'spot'))
+    if kind == 'T1late':
+        # enters at market at the third execution of the strategy (index 2): with 7 or 8 one-minute candles on a 3m route that
+        # execution never happens in the normal simulator (the third candle does not complete)
+        return S.make_template(side=side, entry=None, stop=(40.0 if long else 160.0), take=(160.0 if long else 40.0), qty=1.0,
+                               name='T1late', entry_step=2)
     if kind == 'T1h':
         # the take-profit is declared in on_open_position and priced from a position-dependent value read inside that hook
         # (tp + position.pnl: pnl is 0 at the moment of the entry fill, whatever the rest of the minute does)
@@ -139,6 +144,7 @@ def _jobs(tier):
         add(n=9, tf='3m', kind='T7d', side='long', data=['5m'], sym=[2, 7])  # data route that is not a multiple of the trading timeframe
         add(n=9, tf='3m', kind='T1h', side='long', sym=[1, 4, 7])  # an order priced from position.pnl read in the fill hook
         add(n=7, tf='3m', kind='T1', side='long', sym=[1, 4, 6])  # session length that is not a multiple of the trading timeframe
+        add(n=8, tf='3m', kind='T1late', side='long', sym=[4, 7])  # a strategy that would act on the trailing, still forming candle
     else:
         for side in ('long', 'short'):
             add(n=6, tf='3m', kind='T1', side=side, sym=[1, 4])
@@ -156,6 +162,8 @@ def _jobs(tier):
         add(n=9, tf='3m', kind='T1h', side='long', sym=[1, 4, 7])
         add(n=7, tf='3m', kind='T1', side='long', sym=[1, 4, 6])
         add(n=8, tf='3m', kind='T1', side='short', sym=[2, 5, 7])
+        add(n=8, tf='3m', kind='T1late', side='long', sym=[4, 7])
+        add(n=7, tf='3m', kind='T1late', side='short', sym=[3, 6])
         add(n=9, tf='3m', kind='T1h', side='short', sym=[2, 4, 8])
         add(n=9, tf='3m', kind='T7d', side='long', data=['5m'], sym=[2, 7])
         add(n=12, tf='3m', kind='T7d', side='short', data=['5m'], sym=[3, 6, 8])
